@@ -314,7 +314,13 @@ type c08Env struct {
 func c08Bitmap(fqdn string) []uint32 { return []uint32{uint32(len(fqdn))} }
 
 func (e *c08Env) newCtrl(cfg c08Cfg, fixed map[string]int) (*DnsController, error) {
-	return NewDnsController(e.routing, &DnsControllerOption{
+	return NewDnsController(e.routing, e.option(cfg, fixed))
+}
+
+// option builds the controller option the daemon would build for this
+// configuration (also used for runtime updates / reload reuse).
+func (e *c08Env) option(cfg c08Cfg, fixed map[string]int) *DnsControllerOption {
+	return &DnsControllerOption{
 		Log:                 e.log,
 		LifecycleContext:    context.Background(),
 		CacheAccessCallback: func(*DnsCache) error { return nil },
@@ -336,7 +342,7 @@ func (e *c08Env) newCtrl(cfg c08Cfg, fixed map[string]int) (*DnsController, erro
 		OptimisticCacheTtl: cfg.Stale,
 		MaxCacheSize:       cfg.Max,
 		FixedDomainTtl:     fixed,
-	})
+	}
 }
 
 // ---- history state ------------------------------------------------------------
@@ -400,6 +406,9 @@ type c08Hist struct {
 	seen  map[string]bool // violation signatures already reported by this history
 	ctrls []*c08Ctrl
 	plan  *c08Plan
+	// sigCtx is appended to every violation signature of this history: the
+	// runtime-update histories name the kind of the last update there.
+	sigCtx string
 }
 
 func (h *c08Hist) tr(format string, a ...any) {
@@ -409,6 +418,7 @@ func (h *c08Hist) tr(format string, a ...any) {
 }
 
 func (h *c08Hist) violate(sig, what string, extra map[string]any) {
+	sig += h.sigCtx
 	if h.seen[sig] {
 		h.env.m.Count("repeat_violation_suppressed", 1)
 		return
@@ -1298,7 +1308,7 @@ func (h *c08Hist) runLRU() {
 		return
 	}
 	expiredVariant := h.cfg.Opt && h.cfg.Stale == 0 && r.IntN(2) == 0 // expired entries that never expire
-	ttl := uint32(40)
+	ttl := uint32(3600) // far beyond any starvation of the history: these entries never expire while it runs
 	if expiredVariant {
 		ttl = 1
 	}
@@ -1885,6 +1895,7 @@ func TestVerifC08(t *testing.T) {
 		"the token carried in each inserted RDATA identifies the insert; miekg/dns Unpack is trusted to decode served bytes",
 		"the stub upstream (dnsForwarderFactory) and dialer chooser are test doubles; everything between HandleWithResponseWriter_/LookupDnsRespCache_ and them is dae's code",
 		"optimistic_cache_ttl=0 with max_cache_size=0 is treated as a 60 s window (code) - example.dae says 'never expire'; both agree inside 60 s and no history lasts that long",
+		"janitor runs happen only where a history calls the production evictExpiredDnsCache; the controller's own 30 s ticker is parked (dnsCacheJanitorInterval = 1 h), it would otherwise evict behind the reference model's back when a history is starved for 30 s",
 		"fresh-not-served is judged as in DESIGN C08 (a) although the statement words freshness as an upper bound; entries that may have been evicted for size are exempt")
 
 	routing, err := componentdns.New(&config.Dns{
@@ -1905,6 +1916,14 @@ func TestVerifC08(t *testing.T) {
 	log.SetOutput(io.Discard)
 	log.SetLevel(logrus.ErrorLevel)
 	env := &c08Env{m: m, routing: routing, log: log, start: time.Now()}
+
+	// Every janitor run of a history is an explicit call of the production function
+	// (evictExpiredDnsCache) at an instant the history chose. The controller's own ticker
+	// (every 30 s) would add runs the reference model does not know about as soon as a history is
+	// starved of CPU for that long (race-detector pass on a loaded machine): park it.
+	origJanitor := dnsCacheJanitorInterval
+	dnsCacheJanitorInterval = time.Hour
+	defer func() { dnsCacheJanitorInterval = origJanitor }()
 
 	origFactory := dnsForwarderFactory
 	dnsForwarderFactory = func(upstream *componentdns.Upstream, dialArg dialArgument, _ *logrus.Logger) (DnsForwarder, error) {
@@ -1928,6 +1947,9 @@ func TestVerifC08(t *testing.T) {
 	nE2E := vk.Scale(320, 640)
 	ages := []time.Duration{16300 * time.Millisecond, 17500 * time.Millisecond, 19 * time.Second, 22 * time.Second}
 	nSlack := vk.Scale(16, 32)
+	nTypes := vk.Scale(64, 128)
+	nReconf := vk.Scale(360, 720)
+	nReconfSize := vk.Scale(120, 240)
 
 	id := 0
 	for wave := 0; wave < waves; wave++ {
@@ -1974,6 +1996,27 @@ func TestVerifC08(t *testing.T) {
 			}
 			launch("e2e", cfg, (*c08Hist).runE2E, 10*time.Second)
 		}
+		// question-type alphabet and runtime-update histories (c08_types_reconf_verif_test.go); launched
+		// last so that the earlier histories keep their ids (= their random streams)
+		for i := 0; i < nTypes; i++ {
+			ord := wave*nTypes + i
+			cfg := c08Cfg{Opt: i%2 == 0, Stale: i % 3, Max: []int{0, 1000}[(i/6)%2], Fixed: "none"}
+			launch("types", cfg, func(h *c08Hist) { h.runTypes(ord) }, 12*time.Second)
+		}
+		for i := 0; i < nReconf; i++ {
+			ord := wave*nReconf + i
+			launch("reconf", c08Cfg{Fixed: "none"}, func(h *c08Hist) {
+				h.cfg = c08Cfg{Opt: h.r.IntN(2) == 0, Stale: []int{1, 2, 1, 2, 0}[h.r.IntN(5)], Max: []int{0, 0, 8}[h.r.IntN(3)], Fixed: "none"}
+				h.runReconf(ord)
+			}, 4*time.Second)
+		}
+		for i := 0; i < nReconfSize; i++ {
+			ord := wave*nReconfSize + i
+			launch("reconf-size", c08Cfg{Fixed: "none"}, func(h *c08Hist) {
+				h.cfg = c08Cfg{Opt: h.r.IntN(2) == 0, Stale: 1 + h.r.IntN(2), Max: []int{0, 2, 3}[h.r.IntN(3)], Fixed: "none"}
+				h.runReconfSize(ord)
+			}, 10*time.Second)
+		}
 		wg.Wait()
 		// race phase: runs alone (hot spinning workers need CPUs of their own)
 		{
@@ -1996,5 +2039,20 @@ func TestVerifC08(t *testing.T) {
 		"lru_pairs_checked", "needrefresh_true", "client_served_from_cache", "client_resolved_upstream",
 		"scope_match_checked", "miss_never_inserted", "ttl_checked", "deadline_matches_fixed_ttl_shorter",
 		"deadline_matches_fixed_ttl_longer", "race_rounds_all_workers", "refresh_bg-ok", "refresh_bg-fail-forward", "refresh_bg-fail-chooser")
+	// question-type alphabet: every type 1..64 swept for one name and scope, every class of the
+	// uint16 space, digit-tail names, and the client path
+	m.Require("types_sweep_1_64_complete", "types_other_type_asked_while_earlier_answers_cached",
+		"types_class_0", "types_class_1-64", "types_class_65-255", "types_class_256-32767", "types_class_32768-65279", "types_class_65280-65535",
+		"types_digit_tail_name_type_combos_checked", "types_client_other_type_asked_while_first_cached", "types_histories_completed")
+	// runtime updates: refused and accepted ones through every entry point, followed by probes at
+	// which the refused candidate / the previous configuration would demand the opposite
+	m.Require("reconf_updates_refused", "reconf_updates_accepted",
+		"reconf_refused_via_try", "reconf_refused_via_reuse", "reconf_refused_via_update", "reconf_accepted_via_try", "reconf_accepted_via_reuse",
+		"reconf_refused_knob_optimistic_cache", "reconf_refused_knob_optimistic_cache_ttl", "reconf_refused_knob_max_cache_size",
+		"reconf_refused_knob_all", "reconf_refused_knob_fixed_domain_ttl",
+		"reconf_probes_where_refused_candidate_would_differ", "reconf_probes_refused_candidate_would_serve_in_force_must_not",
+		"reconf_probes_where_previous_config_would_differ",
+		"reconf_size_rounds_where_refused_candidate_would_differ", "reconf_size_limit_in_force_held", "reconf_size_unlimited_rounds",
+		"reconf_size_lru_pairs_checked", "reconf_timing_histories_completed", "reconf_size_histories_completed")
 	m.Done(t)
 }
